@@ -543,6 +543,21 @@ func peLfanewFamily() []peShape {
 			}
 		}
 	}
+	// images large enough for the sum of their 16-bit words to pass 2^32 (the
+	// checksum's end-around carries have to survive that): installers, Go binaries
+	for _, ov := range []int{300000, 300001, 3 << 20} {
+		for _, plus := range []bool{false, true} {
+			bits := "pe32"
+			if plus {
+				bits = "pe32+"
+			}
+			cls := []string{"large-image-word-sum-over-32-bits"}
+			if ov%8 != 0 {
+				cls = append(cls, "overlay-not-8-aligned")
+			}
+			out = append(out, peShape{ID: fmt.Sprintf("%s/sections=[512]/overlay=%d", bits, ov), Plus: plus, Lfanew: 0x80, RawSizes: []int{512}, Overlay: ov, Class: cls})
+		}
+	}
 	return out
 }
 
